@@ -17,7 +17,7 @@ import (
 	"verif/internal/lang"
 )
 
-const cliBin = core.Root + "/.work/bin/bcl"
+var cliBin = core.Root + "/.work/bin/bcl"
 
 type procResult struct {
 	stdout, stderr string
